@@ -99,6 +99,25 @@ def compare_items(r, label, direction, m32, m64, x, ctx, det, me=None):
     except Exception as e:
         r.count("twin_call_raised")
         return None
+    if not m64.training:
+        try:
+            torch.set_default_dtype(torch.float64)
+            with torch.no_grad():
+                o64d, l64d = (m64.forward if direction == "forward" else m64.inverse)(x64, c64)
+        except Exception:
+            o64d = None
+        finally:
+            torch.set_default_dtype(torch.float32)
+        if o64d is not None and o64d.shape == o64.shape:
+            okd = torch.isfinite(o64) & torch.isfinite(o64d)
+            r.count("default_dtype_checks")
+            if okd.any():
+                dd = float((o64 - o64d).abs()[okd].max())
+                ddl = float((l64 - l64d).abs()[torch.isfinite(l64) & torch.isfinite(l64d)].max()) if (torch.isfinite(l64) & torch.isfinite(l64d)).any() else 0.0
+                if max(dd, ddl) > 1e-9 * (1 + float(o64d.abs()[okd].max()) + float(l64d.abs().max() if torch.isfinite(l64d).all() else 0.0)) \
+                        and (me is None or "umnn" not in me["tags"]):
+                    r.viol("default_dtype_dependence", "%s.%s: the float64 twin's results depend on the default dtype (a constant is created "
+                           "in single precision)" % (label, direction), out_diff=dd, lad_diff=ddl, **det)
     try:
         with torch.no_grad():
             o32, l32 = f32(x, ctx)
@@ -594,6 +613,22 @@ def run_spline(r, case):
             r.viol("raises_in_float32", "spline %s %s raises in float32 where float64 works" % (fam, direction), exc=repr(e)[:200],
                    exc_type=type(e).__name__, **det)
             continue
+        # float64 tensors evaluated while the DEFAULT dtype is float32 (this world) must give what they give when the default
+        # dtype is float64: constants created without a dtype (linspace, eye, zeros) silently carry single precision otherwise
+        try:
+            torch.set_default_dtype(torch.float64)
+            with torch.no_grad():
+                o64d, l64d = fn(inputs=xin64, inverse=inv, **p64, **kw)
+        finally:
+            torch.set_default_dtype(torch.float32)
+        okd = torch.isfinite(o64) & torch.isfinite(o64d) & torch.isfinite(l64) & torch.isfinite(l64d)
+        r.count("default_dtype_checks")
+        if okd.any():
+            dd = max(float((o64 - o64d).abs()[okd].max()), float((l64 - l64d).abs()[okd].max()))
+            r.worst("default_dtype_dependence/1e-10", dd / 1e-10)
+            if dd > 1e-10 * (1 + float(o64d.abs()[okd].max())):
+                r.viol("default_dtype_dependence", "spline %s %s: float64 results depend on the default dtype (a constant is created in "
+                       "single precision)" % (fam, direction), max_diff=dd, **det)
         r.ev(n)
         r.count("spline_points", n)
         r.count("twin_items", n)
